@@ -222,11 +222,20 @@ def classify(spec) -> list:
                         flags.add('conn_grp_open_ended')
     # a connection choice one side of which can never exist (incompatible with a permanent node, or only reachable
     # through such nodes) while the other side can
+    # (nodes that exist in every architecture: permanent ones and, transitively, the option of a single-option choice)
+    always = set(perm)
+    grown = True
+    while grown:
+        grown = False
+        for c in spec['sel']:
+            if len(c['options']) == 1 and c['origin'] in always and c['options'][0] not in always:
+                always |= {c['options'][0]} | reach(c['options'][0], succ)
+                grown = True
     dead = set()
     for a, b in spec['incompat']:
-        if a in perm and b not in perm:
+        if a in always and b not in always:
             dead.add(b)
-        if b in perm and a not in perm:
+        if b in always and a not in always:
             dead.add(a)
     changed = bool(dead)
     while changed:
